@@ -110,6 +110,17 @@ TEXT = {
                 "global rule disables the delegation rules; the model reproduces this and the violating histories are attributed to F1.",
         "technique": "Lean 4 proof (induction over the global-rule list; case analysis of the verifier loop) + differential/metamorphic correspondence",
     },
+    "C09": {
+        "text": "Proved in Lean for every attestation tree: the authorization envelope handed to the verifiers comes from an entry stored "
+                "under the key of (ref, from, to) whose SIGNED STATEMENT names exactly (ref, from, to) (C09_auth_exact, "
+                "C09_approvals_auth); merging code-review approvers never counts a principal twice (C09_approvers_nodup) and only "
+                "counts principals of the rule that registered the approver's identity (C09_approvers_sound). The whole-range statement "
+                "C09_sound_statement is evaluated on every range the REAL verifier accepts over generated attestation trees with "
+                "relocated, mismatching, late, foreign-signed and dismissed approvals; the model must reproduce every verdict.",
+        "note": TB + "Open finding F7 on this tree: a code-review approval is looked up by path only, its predicate is never validated, so an "
+                "app-signed approval for another change relocated to this change's path is counted (reproduced from corpus/C09).",
+        "technique": "Lean 4 proof (lookup exactness, approver-merge invariants) + differential correspondence on generated attestation trees",
+    },
 }
 
 NOT_YET = {}
